@@ -658,3 +658,49 @@ func lockDiscipline(fn *ssa.Function, g *ssa.Global) []string {
 	}
 	return bad
 }
+
+// ---------------------------------------------------------------- captured copies (C09)
+//   //@ func F ... / captures-copy c clause
+// The closure F captures the variable c, and c holds a value of the named struct type (a copy made before the closure
+// was created), not a pointer into shared storage: what the closure reads later is what existed when it was created.
+
+func init() { structuralChecks = append(structuralChecks, checkCapturesCopy) }
+
+func checkCapturesCopy(P *Program, prop string) []StructResult {
+	var out []StructResult
+	for _, key := range P.FuncOrd {
+		d := P.Funcs[key]
+		if !hasProp(d.Props(), prop) {
+			continue
+		}
+		for _, c := range d.Get("captures-copy") {
+			f := strings.Fields(c.Text)
+			if len(f) != 2 {
+				continue
+			}
+			res := StructResult{Name: key + ":captures-copy:" + f[0], OK: false, Detail: "no such captured variable"}
+			fn := P.fnByKey[key]
+			if fn != nil {
+				for _, fv := range fn.FreeVars {
+					if fv.Name() != f[0] {
+						continue
+					}
+					pt, ok := fv.Type().Underlying().(*types.Pointer)
+					if !ok {
+						res.Detail = "captured by value"
+						res.OK = true
+						break
+					}
+					elem := types.TypeString(pt.Elem(), func(*types.Package) string { return "" })
+					if elem == f[1] {
+						res.OK, res.Detail = true, "the captured variable holds a "+f[1]+" value (its own copy)"
+					} else {
+						res.Detail = fmt.Sprintf("the captured variable %s has type %s, not %s: it refers to shared storage", f[0], elem, f[1])
+					}
+				}
+			}
+			out = append(out, res)
+		}
+	}
+	return out
+}
